@@ -6,6 +6,7 @@ import (
 	"fmt"
 	"math/rand"
 	"os"
+	"os/user"
 	"path/filepath"
 	"runtime"
 	"strconv"
@@ -226,6 +227,37 @@ func renderNum(r *rand.Rand, v uint32, style string) string {
 
 // filterFor instantiates one (field, operator, value class) into text and abstract item.
 // inC07 reports whether the value stays inside C07's domain.
+type bothName struct {
+	name     string
+	uid, gid uint32
+}
+
+// bothNames: names of /etc/passwd that os/user resolves as a user and as a group with different ids.
+var bothNames = func() []bothName {
+	var out []bothName
+	data, err := os.ReadFile("/etc/passwd")
+	if err != nil {
+		return nil
+	}
+	for _, l := range strings.Split(string(data), "\n") {
+		name := strings.SplitN(l, ":", 2)[0]
+		if name == "" || strings.ContainsAny(name, " ,=<>!&'\"") {
+			continue
+		}
+		u, err1 := user.Lookup(name)
+		g, err2 := user.LookupGroup(name)
+		if err1 != nil || err2 != nil {
+			continue
+		}
+		ui, e1 := strconv.ParseUint(u.Uid, 10, 32)
+		gi, e2 := strconv.ParseUint(g.Gid, 10, 32)
+		if e1 == nil && e2 == nil && ui != gi {
+			out = append(out, bothName{name, uint32(ui), uint32(gi)})
+		}
+	}
+	return out
+}()
+
 func (e *ruleEnv) filterFor(field, op, vclass string) (arg string, it astItem, inC07 bool, arch string) {
 	r := e.rng
 	inC07 = true
@@ -257,6 +289,17 @@ func (e *ruleEnv) filterFor(field, op, vclass string) (arg string, it astItem, i
 			return mk("unset", numItem(field, op, 0xffffffff))
 		case "minus1":
 			return mk("-1", numItem(field, op, 0xffffffff))
+		case "name_both":
+			// a name that is both a user and a group, with different ids: what a uid field gets must not
+			// depend on what a gid field got before (the ids are read through os/user here, as the library does)
+			if len(bothNames) > 0 {
+				b := bothNames[r.Intn(len(bothNames))]
+				if strings.HasSuffix(field, "gid") {
+					return mk(b.name, numItem(field, op, b.gid))
+				}
+				return mk(b.name, numItem(field, op, b.uid))
+			}
+			return mk("root", numItem(field, op, 0))
 		default: // name_root: uid 0 / gid 0 are "root" on every Linux system
 			return mk("root", numItem(field, op, 0))
 		}
@@ -719,7 +762,7 @@ func (e *ruleEnv) randomRule() *ruleText {
 		"exclude": {"pid", "uid", "gid", "auid", "msgtype", "subj_user", "subj_role", "subj_type", "subj_sen", "subj_clr", "exe"},
 	}[list]
 	vclasses := map[string][]string{
-		"uid": {"zero", "small", "max31", "high", "unset", "minus1", "name_root"}, "str": {"short", "long", "special", "utf8"},
+		"uid": {"zero", "small", "max31", "high", "unset", "minus1", "name_root", "name_both"}, "str": {"short", "long", "special", "utf8"},
 		"num": {"zero", "one", "dec", "hex", "neg", "max", "overflow"}, "exit": {"zero", "pos", "neg", "errno_neg", "errno_pos", "min"},
 		"msgtype": {"num", "name", "high"}, "arch": {"b64", "b32", "x86_64", "i386", "aarch64", "arm", "ppc64", "s390x"},
 		"perm": {"r", "w", "x", "a", "rw", "wa", "rwxa"}, "filetype": {"file", "dir", "socket", "symlink", "char", "block", "fifo"},
